@@ -90,7 +90,7 @@ class Main(Part):
 
     def budget(self, tier):
         return {"quick": dict(examples=250, shards=6, seconds=80),
-                "thorough": dict(examples=2500, shards=16, seconds=900)}[tier]
+                "thorough": dict(examples=2500, shards=16, seconds=600)}[tier]
 
     def strategy(self, tier):
         return gen_metrics.case_metrics(n_min=1, n_max=3, max_extent=4 if tier == "quick" else 6)
@@ -111,7 +111,7 @@ class Shipped(Part):
 
     def budget(self, tier):
         return {"quick": dict(examples=40, shards=2, seconds=80),
-                "thorough": dict(examples=400, shards=8, seconds=900)}[tier]
+                "thorough": dict(examples=400, shards=8, seconds=600)}[tier]
 
     def strategy(self, tier):
         from .c03 import shrink_sizes
